@@ -160,3 +160,14 @@ P['C11'] = dict(
     jobs=[dict(name='mutex_model', tu='harness/k_mutex.cpp', entry='h_mutex', engine='B', clock=True, defs_quick={'VK_STEPS': 8, 'VK_WAITERS': 3}, defs_thorough={'VK_STEPS': 10, 'VK_WAITERS': 4},
                reach=['unlock', 'waiter-cancelled', 'cancel-all', 'granted'], samples=12),
           dict(name='single_flight', tu='harness/w_single.cpp', entry='h_single_flight', engine='B', clock=True, reach=['read-failed', 'write-failed', 'read-timeout', 'refused', 'cancelled-midway', 'reconnected-once'], samples=10)])
+
+_pid = 'harness/k_pid.cpp'
+P['C08'] = dict(
+    level_text='Inductive step on the real packet_id_allocator: from an ARBITRARY state of up to 4 (quick) / 6 (thorough) free intervals with symbolic 16-bit bounds, constrained only by the representation invariant (built through the private-member access idiom), one allocate() or one free(p) of a symbolic in-use p: invariant preserved, 0 returned exactly when nothing is free, the lowest free id returned, and the free set changes by exactly that id (checked with a universally chosen probe id). The constructor state satisfies the invariant with exactly 1..65535 free; exhaustion boundary. Since the invariant is inductive this covers histories of any length up to the interval bound. Cross-checked by bounded histories from the initial state against a shadow set, and by the whole-client monitors of C15 (a rejected request leaves no id consumed) and C07/C01 (ids of outstanding exchanges).',
+    level_note='Bounds: vectors of <= 4 / 6 intervals; histories of 6 / 9 operations. Release discipline (job release_discipline = the C05 exploration with the additional monitor ids-in-use == outstanding exchanges after every step, read from the private allocator of the client).',
+    assumptions=['private member _free_ids is reached through the explicit-instantiation access idiom (no source change)'],
+    jobs=[dict(name='pid_step', tu=_pid, entry='h_pid_step', engine='B', defs_quick={'VK_IVALS': 4}, defs_thorough={'VK_IVALS': 6}, reach=['allocated', 'exhausted', 'freed'], samples=12),
+          dict(name='pid_init', tu=_pid, entry='h_pid_init', engine='B', defs_quick={'VK_IVALS': 3}, defs_thorough={'VK_IVALS': 5}, reach=['init'], samples=4),
+          dict(name='pid_histories', tu=_pid, entry='h_pid_seq', engine='B', defs_quick={'VK_IVALS': 3, 'VK_OPS': 6}, defs_thorough={'VK_IVALS': 5, 'VK_OPS': 9}, reach=['freed'], samples=8),
+          dict(name='release_discipline', tu='harness/w_cancel.cpp', entry='h_cancel', engine='B', clock=True, defs={'VK_OPS': 3}, defs_quick={'VK_STEPS': 4}, defs_thorough={'VK_STEPS': 6}, reach=['answered', 'cancel', 'drained'], samples=6),
+          dict(name='pid_step_A', tu=_pid, entry='h_pid_step', engine='A', twin='pid_step', defs={'VK_IVALS': 2}, unwind=6, timeout=900, tiers=['thorough'])])
